@@ -34,17 +34,18 @@ pub fn extra_sibling(kind: u64) -> Option<(String, Vec<u8>)> {
 }
 
 /// Extra entries in the scanned directory that no import reaches: (name, bytes, is_directory).
-/// 4: many files; 5: hidden .xsd; 6: upper-case .XSD; 7: empty .xsd; 8: a directory whose name ends in .xsd
+/// 4: a dozen more files; 5: hidden .xsd; 6: upper-case .XSD; 7: empty .xsd; 8: a directory whose name ends in .xsd;
+/// 9: 256 unreadable (non-UTF-8) .xsd files
 pub fn extra_entries(kind: u64) -> Vec<(String, Vec<u8>, bool)> {
     const VALID: &[u8] = br#"<?xml version="1.0"?><xs:schema xmlns:xs="http://www.w3.org/2001/XMLSchema" xmlns:z="http://example.com/zz/extra" targetNamespace="http://example.com/zz/extra"><xs:complexType name="ExtraType"><xs:sequence><xs:element name="e" type="xs:string"/></xs:sequence></xs:complexType></xs:schema>"#;
     match kind {
         1..=3 => extra_sibling(kind).map(|(n, b)| vec![(n, b, false)]).unwrap_or_default(),
         4 => {
             let mut v = Vec::new();
-            for i in 0..24 {
+            for i in 0..8 {
                 v.push((format!("note{i:02}.txt"), format!("note {i}").into_bytes(), false));
             }
-            for i in 0..16 {
+            for i in 0..6 {
                 v.push((format!("unused{i:02}.xsd"), VALID.to_vec(), false));
             }
             v
@@ -53,6 +54,9 @@ pub fn extra_entries(kind: u64) -> Vec<(String, Vec<u8>, bool)> {
         6 => vec![("UPPER.XSD".into(), VALID.to_vec(), false)],
         7 => vec![("empty.xsd".into(), Vec::new(), false)],
         8 => vec![("folder.xsd".into(), Vec::new(), true)],
+        // 256 siblings that cannot be read as text: generation must fail, and "how many" must not leak into the exit
+        // status in a way that wraps to 0
+        9 => (0..256).map(|i| (format!("bad{i:03}.xsd"), vec![0x3c, 0xff, 0xfe, 0x3e], false)).collect(),
         _ => vec![],
     }
 }
